@@ -70,5 +70,5 @@ def jobs(tier, seed):
                        enforce=DO, spec=SPEC, post_spec=HPOST, pre_text=HGHOST + GH2 + MOVE_CLASS, post=linear_scan,
                        unwindset=loops_unwind([('Position__remove_piece', 11), ('Position__move_piece', 11)]),
                        route='closed-by-complete-unwinding(11); piece mutators inlined',
-                       force_globals=HG, timeout=2400, note='incremental key == from-scratch key after do_move; move class: ' + cname))
+                       force_globals=HG, timeout=2400, flags=['--slice-formula'], note='incremental key == from-scratch key after do_move; move class: ' + cname))
     return out
